@@ -102,8 +102,8 @@ def _cases() -> List[dict]:
 def plan(tier: str) -> dict:
     cases = _cases()
     return {
-        "runs": 3000 if tier == "quick" else 200000,
-        "budget": 90 if tier == "quick" else 900,
+        "runs": 15000 if tier == "quick" else 200000,
+        "budget": 150 if tier == "quick" else 900,
         "cases": cases,
         "chunk": 40,
         "rule": "Twelve openings (plain, pipelined, prior-knowledge preface, TLS-stub ALPN h2 / http/1.1 / none, h2c "
